@@ -209,6 +209,11 @@ class Thermodynamics:
                 "findCriticalTemperature needs TMin < TMax",
                 {"TMax": TMax, "TMin": TMin},
             )
+        if not np.isfinite(TMax):
+            raise WallGoError(
+                "findCriticalTemperature needs a finite temperature window",
+                {"TMax": TMax, "TMin": TMin},
+            )
 
         # tracing phases and ensuring they are stable
         if not self.freeEnergyHigh.hasInterpolation():
